@@ -18,6 +18,7 @@ import (
 	"github.com/cloudwego/hertz/pkg/app/middlewares/server/recovery"
 	"github.com/cloudwego/hertz/pkg/common/config"
 	"github.com/cloudwego/hertz/pkg/common/tracer/stats"
+	"github.com/cloudwego/hertz/pkg/common/tracer/traceinfo"
 	"github.com/cloudwego/hertz/pkg/network"
 
 	"verifh/mc"
@@ -28,14 +29,14 @@ import (
 var Check = &mc.Check{
 	ID:    "C19",
 	Level: "model_checking",
-	Rule: "histories = all strings of 1..3 (thorough 1..6) per-request outcomes over {ok, handler panic + recovery, malformed header, body too large, peer closes mid-body, write error, hijack} (a terminal outcome ends the string) x end of connection {peer EOF, idle time-out, Connection: close on the last request} x idle handling {IdleTimeout>0 in-loop, IdleTimeout==0 re-entry per request} x trace level {base, detailed} x {buffered, streaming} x delivery {pipelined in one read, one read per request}; " +
+	Rule: "histories = all strings of 1..3 (thorough 1..6) per-request outcomes over {ok, handler panic + recovery, handler installs its own trace info, malformed header, body too large, peer closes mid-body, write error, hijack} (a terminal outcome ends the string) x end of connection {peer EOF, idle time-out, Connection: close on the last request} x idle handling {IdleTimeout>0 in-loop, IdleTimeout==0 re-entry per request} x trace level {disabled, base, detailed} x {buffered, streaming} x delivery {pipelined in one read, one read per request}; " +
 		"non-trivial = histories with more than one request or a failing outcome",
 	Run:         run,
 	Replay:      replay,
 	Assumptions: []string{"IdleTimeout==0 models the hertz-side behaviour of a poller-driven transport: the harness re-enters Serve while input remains", "stage order is judged on the recorded event times (monotonic clock, one goroutine)"},
 }
 
-const outcomes = "oPmLcwh" // ok, Panic, malformed, Large, close mid-body, write error, hijack
+const outcomes = "oPtmLcwh" // ok, Panic, own trace info installed by the handler, malformed, Large, close mid-body, write error, hijack
 
 func terminal(o byte) bool { return strings.IndexByte("mLcwh", o) >= 0 }
 
@@ -49,6 +50,8 @@ type Case struct {
 	// NoPool: served with the request-context pool switched off (what HERTZ_DISABLE_REQUEST_CONTEXT_POOL=true does):
 	// every connection works on a context of its own that does not come out of the engine's pool
 	NoPool bool `json:"no_pool,omitempty"`
+	// Disabled: trace level LevelDisabled with a tracer registered: no stage events, but Start and Finish still bracket every request
+	Disabled bool `json:"disabled,omitempty"`
 }
 
 type entry struct {
@@ -95,16 +98,19 @@ type worker struct {
 }
 
 func (w *worker) server(cs Case) (*srvh.Server, *[]entry) {
-	k := fmt.Sprintf("%v/%v/%v", cs.NoIdle, cs.Detailed, cs.Streaming)
+	k := fmt.Sprintf("%v/%v/%v/%v", cs.NoIdle, cs.Detailed, cs.Streaming, cs.Disabled)
 	if s := w.servers[k]; s != nil {
 		return s, w.logs[k]
 	}
 	lg := &[]entry{}
 	s := srvh.New(srvh.Opts{Streaming: cs.Streaming, NoIdle: cs.NoIdle, MaxBody: 64, Mods: []func(o *config.Options){func(o *config.Options) {
 		o.Tracers = append(o.Tracers, recTracer{lg})
-		if cs.Detailed {
+		switch {
+		case cs.Disabled:
+			o.TraceLevel = stats.LevelDisabled
+		case cs.Detailed:
 			o.TraceLevel = stats.LevelDetailed
-		} else {
+		default:
 			o.TraceLevel = stats.LevelBase
 		}
 	}}})
@@ -120,6 +126,11 @@ func (w *worker) server(cs Case) (*srvh.Server, *[]entry) {
 			s.Conn.WriteFailAt = len(s.Conn.Out) + 1
 		case strings.HasSuffix(p, "/h"):
 			ctx.Hijack(func(conn network.Conn) {})
+		case strings.HasSuffix(p, "/t"):
+			// the handler installs a trace info of its own (what a tracing middleware of another vendor does)
+			ti := traceinfo.NewTraceInfo()
+			ti.Stats().SetLevel(stats.LevelDetailed)
+			ctx.SetTraceInfo(ti)
 		}
 		if ctx.Request.IsBodyStream() {
 			buf := make([]byte, 256)
@@ -148,7 +159,7 @@ func build(cs Case) [][]byte {
 		}
 		path := fmt.Sprintf("/r%d/%c", i, o)
 		switch o {
-		case 'o', 'P', 'w', 'h':
+		case 'o', 'P', 'w', 'h', 't':
 			fmt.Fprintf(&cur, "POST %s HTTP/1.1\r\nHost: h\r\n%sContent-Length: 3\r\n\r\nabc", path, closeHdr)
 		case 'm':
 			fmt.Fprintf(&cur, "GET %s HTTP/1.1\r\nHost: h\r\nBad Header Line\r\n\r\n", path)
@@ -223,11 +234,14 @@ func (w *worker) exec(c *mc.Ctx, cs Case) {
 	for i := 0; i < len(cs.Hist); i++ {
 		f := log[2*i+1]
 		o := cs.Hist[i]
-		if strings.IndexByte("oPwh", o) >= 0 { // requests that reached a handler: the Finish must carry their data
+		if strings.IndexByte("oPwht", o) >= 0 { // requests that reached a handler: the Finish must carry their data
 			if want := fmt.Sprintf("/r%d/%c", i, o); f.path != want {
 				fail("finish-data", fmt.Sprintf("Finish %d carries request path %q, the request it brackets is %q", i, f.path, want))
 				return
 			}
+		}
+		if o == 't' || cs.Disabled {
+			continue // the stage events live in the trace info the handler replaced / are not recorded at this level
 		}
 		// stage order
 		var prev time.Time
@@ -315,6 +329,9 @@ func run(c *mc.Ctx) {
 					for _, st := range []bool{false, true} {
 						for _, sp := range []bool{false, true} {
 							cases = append(cases, Case{Hist: h, End: end, NoIdle: ni, Detailed: det, Streaming: st, Split: sp})
+							if !det && !st {
+								cases = append(cases, Case{Hist: h, End: end, NoIdle: ni, Streaming: st, Split: sp, Disabled: true})
+							}
 						}
 					}
 				}
